@@ -82,14 +82,15 @@ def default_sched():
 
 
 def make_player(scn, seat, spec, role, overrides=None, vanish=None, team=None, version=18,
-                on_verdict=None, pre_connect=None, post_connect=None):
+                on_verdict=None, pre_connect=None, post_connect=None, linger_gate=None):
     team = team if team is not None else scn['teams'][rb.side(seat)]
     kind = spec['kind']
     if kind == 'scripted':
         return ScriptedPlayer(seat, team, scn['script'], Style.from_json(spec['style']),
                               spec['seed'], ADDR, version=version, overrides=overrides,
                               name=role, on_verdict=on_verdict, vanish=vanish,
-                              pre_connect=pre_connect, post_connect=post_connect)
+                              pre_connect=pre_connect, post_connect=post_connect,
+                              linger_gate=linger_gate)
     pk = {'bundled': 'script'}.get(kind, kind)
     return BundledPlayer(seat, team, scn['script'], pk, ADDR, name=role, on_verdict=on_verdict,
                          pre_connect=pre_connect, post_connect=post_connect, version=version)
@@ -121,7 +122,8 @@ def run_session(scn, sched, keep_sim=True, max_decisions=None, extra_setup=None)
     ncfg = sched.get('net', {})
     netw = net.Network(net.NetConfig(nrng, ncfg.get('chunk', 'whole'),
                                      ncfg.get('latency', 'const'),
-                                     ncfg.get('base_latency', 0.001)))
+                                     ncfg.get('base_latency', 0.001),
+                                     ncfg.get('short_send', 0.0)))
     core.set_current(sim)
     net.set_network(netw)
     mods['random'].reseed(scn.get('decision_seed', 0))
@@ -152,6 +154,20 @@ def run_session(scn, sched, keep_sim=True, max_decisions=None, extra_setup=None)
         naux[0] += 1
         return f'aux:{k}'
     sim.role_for_thread = role_for_thread
+
+    enc = sched.get('fs_encoding')
+    if enc:
+        import builtins
+
+        def open_with_locale(file, mode='r', *a, **k):
+            if 'b' not in mode and 'encoding' not in k and len(a) < 2:
+                k['encoding'] = enc
+            return builtins.open(file, mode, *a, **k)
+        server_mod.open = open_with_locale
+        st_counts = sim.fault_counts
+        st_counts['env.fs_encoding.' + enc] = 1
+    elif 'open' in vars(server_mod):
+        del server_mod.open
 
     def server_main():
         with server_mod.Server(ip_address=ADDR[0], port=ADDR[1], output_file_path=out_path,
@@ -196,7 +212,7 @@ def run_session(scn, sched, keep_sim=True, max_decisions=None, extra_setup=None)
         if role == 'server':
             run.server_exc = (tn, msg, tb)
     try:
-        with open(out_path, 'r', encoding='utf-8') as f:
+        with open(out_path, 'r', encoding=enc or 'utf-8') as f:
             run.log_text = f.read()
         run.log_exists = True
     except FileNotFoundError:
